@@ -361,17 +361,20 @@ double64_be_write (double in, unsigned char *out)
 
 	memset (out, 0, sizeof (double)) ;
 
-	if (fabs (in) < DBL_MIN)
-		return ;
-
-	if (in < 0.0)
+	if (signbit (in))
 	{	in *= -1.0 ;
 		out [0] |= 0x80 ;
 		} ;
 
-	in = frexp (in, &exponent) ;
-
-	exponent += 1022 ;
+	if (in < DBL_MIN)
+	{	/* Zero or subnormal : exponent field 0, no hidden bit, mantissa = in * 2^1074. */
+		in = ldexp (in, 1021) ;
+		exponent = 0 ;
+		}
+	else
+	{	in = frexp (in, &exponent) ;
+		exponent += 1022 ;
+		} ;
 
 	out [0] |= (exponent >> 4) & 0x7F ;
 	out [1] |= (exponent << 4) & 0xF0 ;
@@ -401,17 +404,20 @@ double64_le_write (double in, unsigned char *out)
 
 	memset (out, 0, sizeof (double)) ;
 
-	if (fabs (in) < DBL_MIN)
-		return ;
-
-	if (in < 0.0)
+	if (signbit (in))
 	{	in *= -1.0 ;
 		out [7] |= 0x80 ;
 		} ;
 
-	in = frexp (in, &exponent) ;
-
-	exponent += 1022 ;
+	if (in < DBL_MIN)
+	{	/* Zero or subnormal : exponent field 0, no hidden bit, mantissa = in * 2^1074. */
+		in = ldexp (in, 1021) ;
+		exponent = 0 ;
+		}
+	else
+	{	in = frexp (in, &exponent) ;
+		exponent += 1022 ;
+		} ;
 
 	out [7] |= (exponent >> 4) & 0x7F ;
 	out [6] |= (exponent << 4) & 0xF0 ;
